@@ -287,6 +287,10 @@ pub fn adjust(cfg: &mut SwarmCfg, tier: &str, r: &mut Prng) {
             cfg.knobs.push(("banned".into(), 1));
             cfg.knobs.push(("templates".into(), 1));
             cfg.n_parties = cfg.n_parties.clamp(4, 8);
+            if r.chance(1, 2) {
+                // the devices of the last party but one do not support the custom group-context extension type
+                cfg.knobs.push(("legacy".into(), 1));
+            }
             setw(cfg, "commit", 18);
             setw(cfg, "propose", 18);
             setw(cfg, "forge", 10);
@@ -532,7 +536,7 @@ pub fn extra_action(w: &mut World, kind: &str) -> Option<Action> {
             Some(Action::Special {
                 kind: "forge".into(),
                 a: p as u64,
-                b: if w.cfg.knob("templates").is_some() { w.prng.below(16) } else { w.prng.below(13) },
+                b: if w.cfg.knob("templates").is_some() { w.prng.below(17) } else { w.prng.below(13) },
                 c: w.prng.below(8),
             })
         }
